@@ -6,7 +6,7 @@
 (* the Cls* variants, for xs:pattern automata (labels = code-point range   *)
 (* lists, words = sequences of code points).                               *)
 (***************************************************************************)
-EXTENDS Naturals, Sequences, FiniteSets
+EXTENDS Naturals, Sequences, FiniteSets, TLC
 
 Pos(A) == DOMAIN A.lab
 Start(A, a) == {q \in A.first : A.lab[q] = a}
@@ -66,6 +66,26 @@ Arrangements(A, w) ==
 
 UniqueArr(A, w) == Cardinality(Arrangements(A, w)) = 1
 TheArr(A, w) == CHOOSE x \in Arrangements(A, w) : TRUE
+
+\* ---------------------------------------------------------------------------
+\* edge cover: for every follow edge (and every first position) one shortest accepted path through it
+RECURSIVE BfsTo(_, _, _)
+BfsTo(A, frontier, f) ==
+  LET new == {q \in UNION {A.follow[p] : p \in frontier} : q \notin DOMAIN f}
+  IN IF new = {} THEN f
+     ELSE BfsTo(A, new, f @@ [q \in new |-> LET p == CHOOSE x \in frontier : q \in A.follow[x] IN Append(f[p], q)])
+SPTo(A) == BfsTo(A, A.first, [q \in A.first |-> <<q>>])          \* position -> shortest path from the start
+RECURSIVE BfsFrom(_, _, _)
+BfsFrom(A, frontier, g) ==
+  LET new == {p \in Pos(A) \ DOMAIN g : A.follow[p] \cap frontier # {}}
+  IN IF new = {} THEN g
+     ELSE BfsFrom(A, new, g @@ [p \in new |-> LET q == CHOOSE x \in frontier : x \in A.follow[p] IN <<q>> \o g[q]])
+SPFrom(A) == BfsFrom(A, A.last, [q \in A.last |-> <<>>])          \* position -> shortest path on to acceptance
+EdgeCoverPaths(A) ==
+  LET t == SPTo(A)  f == SPFrom(A)
+  IN {t[q] \o f[q] : q \in A.first} \cup
+     UNION {{t[p] \o <<q>> \o f[q] : q \in A.follow[p]} : p \in Pos(A)}
+EdgeCoverWords(A) == {[i \in DOMAIN pth |-> A.lab[pth[i]]] : pth \in EdgeCoverPaths(A)}
 
 \* ---------------------------------------------------------------------------
 \* the same machinery over code-point classes (xs:pattern): a label is a
